@@ -25,9 +25,7 @@ import (
 	"github.com/plgd-dev/go-coap/v3/net/responsewriter"
 	"github.com/plgd-dev/go-coap/v3/options"
 	"github.com/plgd-dev/go-coap/v3/options/config"
-	"github.com/plgd-dev/go-coap/v3/tcp"
 	tcpClient "github.com/plgd-dev/go-coap/v3/tcp/client"
-	"github.com/plgd-dev/go-coap/v3/udp"
 	udpClient "github.com/plgd-dev/go-coap/v3/udp/client"
 
 	"verif/bubble"
@@ -36,6 +34,7 @@ import (
 	"verif/peer"
 	"verif/pooltrack"
 	"verif/refcodec"
+	"verif/roles"
 )
 
 type EndCfg struct {
@@ -52,6 +51,10 @@ type EndCfg struct {
 	// GoPool (datagram): every received message is processed on a goroutine of its own
 	// (WithProcessReceivedMessageFunc), so duplicates and blocks of one transfer run concurrently
 	GoPool bool `json:"goPool,omitempty"`
+	// Role: "" the endpoint is built by a client constructor; "server" it is the connection a
+	// dtls.NewServer / tcp.NewServer creates for a peer accepted from an in-memory listener (its
+	// configuration travels through the server's)
+	Role string `json:"role,omitempty"`
 }
 
 // bwTimeout: 0 = the default 3 s, a negative value = a block-wise transfer timeout of exactly 0
@@ -430,20 +433,21 @@ func Run(t *testing.T, sc Scenario, track bool) (tr Trace) {
 
 		// ---- endpoints --------------------------------------------------------------------------------
 		lim := func(c EndCfg) int64 { return int64(def(c.Limit, 16)) }
+		var stopRoles []func()
 		if sc.Transport == "udp" {
 			lc := sc.Link
 			lc.Alien = alienBlock
 			plink = memnet.NewPacketLink(lc)
 			mk := func(end *memnet.PacketEnd, c EndCfg, errs *endpoints.Errs, p *pool.Pool, side string) *udpClient.Conn {
 				var cc *udpClient.Conn
-				var extra []udp.Option
+				var extra []any
 				if c.GoPool {
 					extra = append(extra, options.WithProcessReceivedMessageFunc(config.ProcessReceivedMessageFunc[*udpClient.Conn](
 						func(req *pool.Message, cc *udpClient.Conn, h config.HandlerFunc[*udpClient.Conn]) {
 							go cc.ProcessReceivedMessageWithHandler(req, h)
 						})))
 				}
-				cc = endpoints.UDP(end, append([]udp.Option{
+				cc, stop, err := roles.PacketEnd(c.Role, end, bubble.Wait, append([]any{
 					options.WithMessagePool(p), options.WithPeriodicRunner(tk.Runner()), options.WithErrors(errs.Add),
 					options.WithBlockwise(c.Blockwise, szx(c.SZX), bwTimeout(c)),
 					options.WithMaxMessageSize(uint32(def(c.MaxMsg, 65536))), options.WithMTU(uint16(min(def(c.MaxMsg, 65536), 65000))),
@@ -454,6 +458,10 @@ func Run(t *testing.T, sc Scenario, track bool) (tr Trace) {
 						serve(w.Conn(), w.SetResponse, r, side)
 					})),
 				}, extra...)...)
+				if err != nil {
+					panic(err)
+				}
+				stopRoles = append(stopRoles, stop)
 				return cc
 			}
 			c1 := mk(plink.A, sc.Cli, &cliErrs, cliPool, "cli")
@@ -479,7 +487,15 @@ func Run(t *testing.T, sc Scenario, track bool) (tr Trace) {
 			_, _ = slink.A.Write(csm(sc.Cli)) // read by the server
 			_, _ = slink.B.Write(csm(sc.Srv)) // read by the client
 			mk := func(end *memnet.StreamEnd, c EndCfg, errs *endpoints.Errs, p *pool.Pool, side string) *tcpClient.Conn {
-				cc, err := endpoints.TCP(end, []tcp.Option{
+				var extra []any
+				if c.GoPool {
+					// (on the unchanged tree a stream connection ignores this option)
+					extra = append(extra, options.WithProcessReceivedMessageFunc(config.ProcessReceivedMessageFunc[*tcpClient.Conn](
+						func(req *pool.Message, cc *tcpClient.Conn, h config.HandlerFunc[*tcpClient.Conn]) {
+							go cc.ProcessReceivedMessageWithHandler(req, tcpClient.HandlerFunc(h))
+						})))
+				}
+				cc, stop, err := roles.StreamEnd(c.Role, end, bubble.Wait, append([]any{
 					options.WithMessagePool(p), options.WithPeriodicRunner(tk.Runner()), options.WithErrors(errs.Add),
 					options.WithBlockwise(c.Blockwise, szx(c.SZX), bwTimeout(c)),
 					options.WithMaxMessageSize(uint32(def(c.MaxMsg, 65536))),
@@ -488,10 +504,11 @@ func Run(t *testing.T, sc Scenario, track bool) (tr Trace) {
 					options.WithHandlerFunc(tcpClient.HandlerFunc(func(w *responsewriter.ResponseWriter[*tcpClient.Conn], r *pool.Message) {
 						serve(w.Conn(), w.SetResponse, r, side)
 					})),
-				}...)
+				}, extra...)...)
 				if err != nil {
 					panic(err)
 				}
+				stopRoles = append(stopRoles, stop)
 				return cc
 			}
 			c1 := mk(slink.A, sc.Cli, &cliErrs, cliPool, "cli")
@@ -788,6 +805,9 @@ func Run(t *testing.T, sc Scenario, track bool) (tr Trace) {
 		tr.End = time.Since(start)
 		_ = cli.Close()
 		_ = srv.Close()
+		for _, stop := range stopRoles {
+			stop()
+		}
 		obsMu.Lock()
 		for _, st := range observers {
 			close(st.stop)
